@@ -204,6 +204,9 @@ def gen_cases(tier, seed):
             k = dict(kind="jac", flow="corner_2d", pair=pair, par=p, dom=dom)
             if k not in keys:
                 keys.append(k)
+    # integer-typed end points
+    for fl in INT_POINTS:
+        keys.append(dict(kind="intpoint", flow=fl))
     # strain-increment clause
     for sc in SI_SCALES:
         keys.append(dict(kind="sinc", scale=sc))
@@ -673,7 +676,59 @@ def run_path(key):
     return res
 
 
+INT_POINTS = {
+    # flow: (constructor args, end point, box min, box max, strain limit)
+    "shear": (("simple_shear_2d", ("X", "Z", 1.0)), [3, 0, 2], [0.5, 0.0, 0.5], [4.5, 0.0, 3.5], 5.0),
+    "shear_neg": (("simple_shear_2d", ("X", "Z", 1.0)), [1, 0, -2], [-2.5, 0.0, -3.5], [1.5, 0.0, -0.5], 5.0),
+    "corner": (("corner_2d", ("X", "Z", 1.0)), [2, 0, -2], [0.0, 0.0, -3.25], [4.5, 0.0, 0.0], 3.0),
+}
+
+
+def run_intpoint(key):
+    """The end point typed with integer literals (an int64 array) in a box whose corners are
+    not whole numbers: the same pathline as for the float-typed end point (seed C18g: the box
+    corners cast to the dtype of the end point)."""
+    V, P, U = _mods()
+    res = empty_result()
+    (fname, args), x0, mn, mx, ms = INT_POINTS[key["flow"]]
+    u, L = getattr(V, fname)(*args)
+    mn, mx = np.array(mn), np.array(mx)
+    size = float((mx - mn).max())
+    outs = {}
+    for tag, dt in (("float64", float), ("int64", np.int64)):
+        res["n"] += 1
+        res["trans"] += 1
+        try:
+            t, f = P.get_pathline(np.array(x0, dtype=dt), u, L, mn.copy(), mx.copy(), ms, regular_steps=20)
+            t = np.asarray(t, float)
+            outs[tag] = (t, np.array([np.asarray(f(tt), float) for tt in t]))
+        except Exception as e:
+            outs[tag] = e
+    res["states"] = 2
+    _add(res, "end_point_dtype_irrelevant")
+    a, b = outs["float64"], outs["int64"]
+    if isinstance(a, Exception) or isinstance(b, Exception):
+        if type(a) is not type(b):
+            res["viol"].append({"clause": "end_point_dtype_irrelevant", "key": dict(key), "detail": {"float64": repr(a)[:150] if isinstance(a, Exception) else "ok", "int64": repr(b)[:150] if isinstance(b, Exception) else "ok"}})
+    else:
+        same = a[0].shape == b[0].shape and np.abs(a[0] - b[0]).max() <= 1e-9 * max(1.0, np.abs(a[0]).max()) and np.abs(a[1] - b[1]).max() <= 1e-9 * size
+        if not same:
+            res["viol"].append({"clause": "end_point_dtype_irrelevant", "key": dict(key), "detail": {"t_start_float64": float(a[0][0]), "t_start_int64": float(b[0][0]), "n_float64": int(a[0].size), "n_int64": int(b[0].size)}})
+        for tag, (t, pos) in outs.items():
+            _add(res, "inside")
+            out = np.maximum(np.maximum(mn - pos, pos - mx).max(axis=1), 0.0)
+            if out.max() > 1e-3 * size:
+                res["viol"].append({"clause": "inside", "key": dict(key, typed=tag), "detail": {"outside_over_size": float(out.max() / size)}})
+        res["nontrivial"].append(digest("intpoint", key["flow"]))
+        res["outcomes"].append(digest(np.round(a[1], 6)))
+    res["obs"] = digest(*[o if isinstance(o, Exception) else o[1] for o in outs.values()]) if not any(isinstance(o, Exception) for o in outs.values()) else digest("exc")
+    res["sample"] = {"case": key}
+    return res
+
+
 def run_case(key):
+    if key["kind"] == "intpoint":
+        return run_intpoint(key)
     if key["kind"] == "jac":
         return run_jac(key)
     if key["kind"] == "sinc":
